@@ -687,13 +687,13 @@ Section Term.
     (* -------------------------------------------------------------- Bracketed *)
     Lemma match_bracketed_nf self found bs be pers gaps d len idx terms :
       idx <= len -> len - idx <= R0 ->
-      (forall sb eb, bs = Some sb -> be = Some eb ->
+      (found = true -> forall sb eb, bs = Some sb -> be = Some eb ->
          Callable sb terms /\ Callable eb terms /\ ok sb (len - idx) /\ tc_in tc sb = true
          /\ SeqS d (deeper g true [eb] terms)) ->
       NF (match_bracketed g toks rec fl self found bs be pers gaps d len idx terms).
     Proof.
       intros Hi Hr Hbe. unfold match_bracketed.
-      destruct (negb found); [apply nf_panic|].
+      destruct found; cbn [negb]; [|apply nf_panic]. specialize (Hbe eq_refl).
       destruct bs as [sb|]; [|apply nf_panic]. destruct be as [eb|]; [|apply nf_panic].
       destruct (Hbe sb eb eq_refl eq_refl) as (Hcs & Hce & Hok & Htcs & Hseq).
       apply nf_bind; [apply rec_nf; assumption|]. intros sm Hsm.
@@ -840,6 +840,169 @@ Section Term.
       NF (match_delimited g toks rec fl d delim tr mn len idx terms).
     Proof.
       intros Hi Hr tms Hs Ho. unfold match_delimited. apply delim_loop_nf; auto; try lia.
+    Qed.
+
+    (* -------------------------------------------------------------- from the certificate to the premises *)
+    Lemma nf_is_ok_and (x : res mr) : NF x ->
+      NF (match x with ROk m => ROk (has_match m) | RErr => ROk false | RPanic p => RPanic p | RFuel => RFuel end).
+    Proof. intro H. destruct x; try discriminate. exfalso. apply H. reflexivity. Qed.
+
+    Lemma trim_in (ms : list N) (useT : bool) (T : tset) (terms : list N) (c : N) :
+      Sub terms T -> In c ((ms ++ (if useT then terms else [])) ++ brk g) -> In c (trim_ms g ms useT T).
+    Proof.
+      intros Hs Hc. unfold trim_ms, greedy_ms. apply in_app_or in Hc as [Hc|Hc]; apply in_or_app; [left|right; exact Hc].
+      apply in_app_or in Hc as [Hc|Hc]; apply in_or_app; [left; exact Hc|right].
+      destruct useT; [eapply sub_members; eassumption|destruct Hc].
+    Qed.
+
+    Lemma trims_of (ms : list N) (useT : bool) (T : tset) (terms : list N) :
+      Sub terms T -> forallb (kw_tc g tc) (trim_ms g ms useT T) = true ->
+      (forall e, In e (greedy_edges g ms useT T) -> flows_b cx e = true) ->
+      TrimS (ms ++ (if useT then terms else [])) terms.
+    Proof.
+      intros Hs Hkw Hfl'. split.
+      - intros c Hc. eapply flows_callable; [|exact Hs]. apply Hfl'. unfold greedy_edges.
+        apply (in_map (fun t => (t, T))). eapply trim_in; eassumption.
+      - intros c Hc Hk. pose proof (forallb_in _ _ _ Hkw (trim_in _ _ _ _ _ Hs Hc)) as H.
+        unfold kw_tc in H. rewrite Hk in H. exact H.
+    Qed.
+
+    Lemma seqs_of d T terms :
+      Sub terms T ->
+      (pmode_eqb (sq_mode d) Strict || forallb (kw_tc g tc) (trim_ms g (sq_terms d) true T)) = true ->
+      (forall e, In e (seq_edges g d T) -> flows_b cx e = true) -> SeqS d terms.
+    Proof.
+      intros Hs Hst Hfl'. split.
+      - intros e He Hcl. eapply flows_callable; [|exact Hs]. apply Hfl'. unfold seq_edges. apply in_or_app. left.
+        apply (in_map (fun e => (e, T))). apply filter_In. split; assumption.
+      - destruct (pmode_eqb (sq_mode d) Strict) eqn:Em.
+        + left. destruct (sq_mode d); try discriminate; reflexivity.
+        + right. cbn [orb] in Hst. apply (trims_of (sq_terms d) true T terms Hs Hst).
+          intros e He. apply Hfl'. unfold seq_edges. rewrite Em. apply in_or_app. right. exact He.
+    Qed.
+
+    Lemma seq_okl d T terms r :
+      Sub terms T -> Okl (seq_si g tc d T) r -> Okl (seq_trim_ms d terms ++ seq_prefix g tc (sq_elems d)) r.
+    Proof.
+      intros Hs Ho. eapply okl_sub; [|exact Ho]. intros c Hc. unfold seq_si.
+      apply in_app_or in Hc as [Hc|Hc]; apply in_or_app; [left|right; exact Hc].
+      unfold seq_trim_ms in Hc. destruct (pmode_eqb (sq_mode d) Strict); [destruct Hc|].
+      apply (trim_in (sq_terms d) true T terms); assumption.
+    Qed.
+
+    Lemma match_node_body_nf n idx len terms :
+      Callable n terms -> idx <= len -> len - idx = R0 -> rank n = K0 ->
+      NF (match_node_body g toks rx rec fl n idx len terms).
+    Proof.
+      intros (T & HT & Hs) Hi HR HK.
+      destruct (tcert_entry _ _ HT) as (i & Hget & _ & Hsi & Hstat & Hfl').
+      assert (Hedge : forall c S t, In (c, S) (edges g i T) -> Sub t S -> Callable c t)
+        by (intros c S t Hin HS; eapply flows_callable; [apply Hfl'; exact Hin|exact HS]).
+      assert (Hlow : Okl (si g tc i T) (len - idx)).
+      { intros c Hc. right. split; [lia|]. rewrite <- HK. apply Hsi. exact Hc. }
+      assert (Hr : len - idx <= R0) by lia.
+      unfold match_node_body. rewrite (info_present _ _ _ Hget). cbn [bind].
+      unfold static_ok in Hstat. unfold edges in Hedge, Hfl'. unfold si in Hlow.
+      destruct (n_node i) eqn:En.
+      - (* GRef *)
+        destruct target as [t|]; [|apply nf_panic].
+        set (T2 := adds terms0 (if reset then PS.empty else T)) in *.
+        assert (HS2 : Sub (deeper g reset terms0 terms) T2) by (apply sub_deeper; exact Hs).
+        apply nf_bind.
+        + destruct exclude as [e|]; [|apply nf_ok]. apply nf_is_ok_and.
+          apply rec_nf; [eapply Hedge; [|exact HS2]; right; left; reflexivity|exact Hi|].
+          apply Hlow. right. left. reflexivity.
+        + intros ex _. destruct ex; [apply nf_ok|].
+          apply rec_nf; [eapply Hedge; [|exact HS2]; left; reflexivity|exact Hi|].
+          apply Hlow. left. reflexivity.
+      - (* GSeq *)
+        apply match_sequence_nf; [exact Hr|eapply seqs_of; eassumption|eapply seq_okl; eassumption].
+      - (* GBracketed *)
+        apply match_bracketed_nf; auto. intros -> sb eb -> ->.
+        apply andb_true_iff in Hstat as [Htcs Hstat].
+        split; [eapply Hedge; [left; reflexivity|exact Hs]|].
+        split; [eapply Hedge; [right; left; reflexivity|exact Hs]|].
+        split; [apply Hlow; left; reflexivity|]. split; [exact Htcs|].
+        eapply seqs_of; [|exact Hstat|].
+        + intros x Hx. apply deeper_in in Hx as [[<-|[]]|[Hx _]]; [|discriminate].
+          unfold inT. apply PS.singleton_spec. reflexivity.
+        + intros e He. apply Hfl'. right. right. exact He.
+      - (* GAny *)
+        set (T2 := any_T2 d T) in *.
+        assert (HS2 : Sub (deeper g (an_reset d) (an_terms d) terms) T2) by (apply sub_deeper; exact Hs).
+        destruct (okl_app _ _ _ Hlow) as [Hlex Hlow2]. destruct (okl_app _ _ _ Hlow2) as [Hltr Hlel].
+        apply match_anynumberof_nf; auto.
+        + intros ex Hex. rewrite Hex in Hlex. split; [|apply Hlex; left; reflexivity].
+          eapply Hedge; [|exact Hs]. apply in_or_app. left. rewrite Hex. left. reflexivity.
+        + intros Hm. rewrite Hm in Hstat, Hltr. cbn [pmode_eqb negb orb] in Hstat, Hltr.
+          assert (Hgo := trims_of (an_terms d) (negb (an_reset d)) T terms Hs Hstat).
+          assert (Hti := fun c => trim_in (an_terms d) (negb (an_reset d)) T terms c Hs).
+          cbn zeta. destruct (an_reset d); cbn [negb] in Hgo, Hti; [rewrite app_nil_r in Hgo, Hti|];
+            (split; [apply Hgo; intros e He; apply Hfl'; apply in_or_app; right; apply in_or_app; left;
+                     rewrite Hm; exact He
+                    |eapply okl_sub; [exact Hti|exact Hltr]]).
+        + unfold AnyS. cbn zeta. split.
+          * intros c Hc. eapply Hedge; [|exact HS2]. apply in_or_app. right. apply in_or_app. right.
+            apply (in_map (fun e => (e, T2))). apply in_or_app. left. exact Hc.
+          * intros c Hc. eapply Hedge; [|exact HS2]. apply in_or_app. right. apply in_or_app. right.
+            apply (in_map (fun e => (e, T2))). apply in_or_app. right. eapply sub_members; eassumption.
+      - (* GDelim *)
+        set (T2 := PS.add (key delim) T) in *.
+        assert (HST2 : Sub terms T2) by (intros x Hx; apply PS.add_spec; right; apply Hs; exact Hx).
+        assert (HS0 : forall x, In x (deeper g false [] terms) -> In x terms)
+          by (intros x Hx; apply deeper_in in Hx as [[]|[_ Hx]]; exact Hx).
+        assert (HS1 : Sub (deeper g false [delim] terms) T2).
+        { intros x Hx. apply deeper_in in Hx as [[<-|[]]|[_ Hx]]; [apply PS.add_spec; left; reflexivity|apply HST2; exact Hx]. }
+        assert (Hterm : forall x t, In x terms -> Sub t T -> Callable x t).
+        { intros x t Hx Ht. eapply Hedge; [|exact Ht]. apply in_or_app. left. apply (in_map (fun e => (e, T))).
+          apply in_or_app. right. apply in_or_app. right. exact (sub_members _ _ _ Hs Hx). }
+        apply match_delimited_nf; auto.
+        + unfold DelimS. cbn zeta. repeat split.
+          * intros c Hc. apply in_app_or in Hc as [Hc|Hc].
+            -- eapply Hedge; [|exact Hs]. apply in_or_app. left. apply (in_map (fun e => (e, T))). apply in_or_app. left. exact Hc.
+            -- apply in_app_or in Hc as [Hc|Hc]; [apply filter_In in Hc as [Hc _]; apply Hterm; assumption|].
+               eapply Hedge; [|exact Hs]. apply in_or_app. left. apply (in_map (fun e => (e, T))). apply in_or_app. right.
+               apply in_or_app. left. exact Hc.
+          * intros c Hc. apply Hterm; assumption.
+          * intros c [<-|[]]. eapply Hedge; [apply in_or_app; right; left; reflexivity|].
+            intros x Hx. apply HST2. apply HS0. exact Hx.
+          * intros c Hc. apply Hterm; [apply HS0; exact Hc|]. intros x Hx. apply Hs. apply HS0. exact Hx.
+          * intros c Hc. eapply Hedge; [|exact HS1]. apply in_or_app. right. right.
+            apply (in_map (fun e => (e, T2))). apply in_or_app. left. exact Hc.
+          * intros c Hc. eapply Hedge; [|exact HS1]. apply in_or_app. right. right.
+            apply (in_map (fun e => (e, T2))). apply in_or_app. right. eapply sub_members; [exact HS1|exact Hc].
+        + eapply okl_sub; [|exact Hlow]. intros c Hc.
+          apply in_app_or in Hc as [Hc|Hc]; [|apply in_or_app; right; apply in_or_app; right; apply in_or_app; right; exact Hc].
+          apply in_app_or in Hc as [Hc|Hc]; [apply in_or_app; left; exact Hc|].
+          apply in_or_app. right. apply in_app_or in Hc as [Hc|Hc].
+          * apply in_or_app. left. apply filter_In in Hc as [Hc _]. eapply sub_members; eassumption.
+          * apply in_or_app. right. apply in_or_app. left. exact Hc.
+      - (* GNodeM *)
+        destruct (len <=? idx); [apply nf_ok|].
+        apply nf_bind; [apply tok_nf|]. intros t _.
+        destruct (p_kind t =? kind); [apply nf_ok|].
+        apply nf_bind; [|intros; apply nf_ok].
+        apply rec_nf; [eapply Hedge; [left; reflexivity|exact Hs]|exact Hi|apply Hlow; left; reflexivity].
+      - apply nf_bind; [apply tok_nf|]. intros t _. destruct (p_code t && (p_upper t =? upper)); apply nf_ok.
+      - apply nf_bind; [apply tok_nf|]. intros t _. destruct (p_code t && memN (p_upper t) uppers); apply nf_ok.
+      - apply nf_bind; [apply tok_nf|]. intros t _. destruct (p_kind t =? template); apply nf_ok.
+      - apply nf_bind; [apply tok_nf|]. intros t _. destruct (existsb _ rx); apply nf_ok.
+      - apply nf_panic.
+      - destruct enabled; apply nf_ok.
+      - (* GAnything *)
+        destruct (is_empty terms0 && is_empty terms) eqn:Ee; [apply nf_ok|].
+        destruct (is_empty terms0 && PS.is_empty T) eqn:Et.
+        { apply andb_true_iff in Et as [Et1 Et2]. rewrite Et1 in Ee. cbn [andb] in Ee.
+          apply PS.is_empty_spec in Et2. destruct terms as [|x terms]; [discriminate|].
+          exfalso. apply (Et2 (key x)). apply Hs. left. reflexivity. }
+        cbn [orb] in Hstat.
+        destruct (trims_of terms0 true T terms Hs Hstat Hfl') as (G1 & G2).
+        apply greedy_match_nf; auto; [lia|].
+        eapply okl_sub; [|exact Hlow]. intros c Hc. eapply trim_in; eassumption.
+      - apply nf_ok.
+      - apply nf_bind; [apply noncode_scan_nf|]. intros hit _.
+        destruct hit as [j|]; [destruct (idx <? j)|]; apply nf_ok.
+      - apply nf_bind; [apply tok_nf|]. intros t _. destruct (p_kind t =? k_bracketed g); apply nf_ok.
     Qed.
   End WithRec.
 End Term.
